@@ -19,10 +19,10 @@ TABLE = {
             "Failure atomicity and frozen-refusal are decided on every CFG path of add_resource / add_window / align_to with interprocedural may-raise / writes summaries; freeze-on-hand-over by post-dominance; interval discipline by a small type system over bisect / comparison sites; _align_up by modular reduction; every query method writes no field of the map or its memo is written by every mutator.",
             "numeric correctness of the bisect indices beyond the endpoint kinds (N1)", "6/C02"),
     "C03": ("construction-site ownership, affine address-unit typing with a dependency clause, guard tables (Boolean function of table membership per result), flattened view when _translate is split",
-            "Decides that all three traversals share one translation authority (_translate) fed with the window's own stored range, that scale and base are applied on the right side (unit typing), and that the dispatch over resources / windows is a partition in address order; the queries refuse nothing (closed refusal set: an address outside every range decodes to None). The look-ups never read the placement cursor.",
+            "Decides that all three traversals share one translation authority (_translate) fed with the window's own stored range, that scale and base are applied on the right side (unit typing), and that the dispatch over resources / windows is a partition in address order; the queries refuse nothing (closed refusal set: an address outside every range decodes to None). The look-ups never read the placement cursor. No method of MemoryMap stores per-parent facts on an object it is handed (a map may be a window of several parents).",
             "numeric equality of the traversals over all trees (N1)", "6/C03"),
     "C04": ("template conformance of Multiplexer.elaborate (read half) on the E-DSL model; decision lists by truth table",
-            "One-step facts F1-F4 of Appendix C decided for every layout (loop indices symbolic): read strobe only on the first chunk address, delayed select, capture on the register's strobe, bus data gated by the chunk's select. The give-up threshold of _Shadow.prepare() is not below 2**ceil_log2(max stop) (a legal layout is not refused for want of one more doubling).",
+            "One-step facts F1-F4 of Appendix C decided for every layout (loop indices symbolic): read strobe only on the first chunk address, delayed select, capture on the register's strobe, bus data gated by the chunk's select. The give-up threshold of _Shadow.prepare() is not below 2**ceil_log2(max stop) (a legal layout is not refused for want of one more doubling); the chunk offset keeps every start-address bit below the shadow size (mask size - 1) and the size stays a power of two -- the facts that threshold rests on.",
             "shadow address hash arithmetic (N1); the multi-cycle induction is written, not mechanised (N2)", "6/C04"),
     "C05": ("template conformance of Multiplexer.elaborate (write half); taint of shadow_overlaps",
             "One-step facts decided for every layout: chunk write enables, registered write strobe exactly on the last address with the clear at lower priority (effective order incl. Switch hoisting), data concatenation, no cross-talk between read and write halves, sharing limit flows only into the balance test. The give-up threshold of _Shadow.prepare() is not below 2**ceil_log2(max stop).",
@@ -64,13 +64,13 @@ TABLE = {
             "Builder.add validates before storing and refuses when frozen; Cluster/Index push is matched by a pop in finally, by a statement that survives python -O (asserts only look: D11, fixed); as_memory_map freezes, iterates in insertion order and passes name/addr/size/alignment computed as promised, with errors propagating.",
             "allocation arithmetic inherited from C02 (N1)", "6/C17"),
     "C18": ("must-pass-through, must-call, taint, monotone flag, idiom conformance",
-            "Every namespace mutation is preceded on all paths by an availability query over the same names with a raising failure edge; names are canonicalised first; str() never reaches the deciding comparison; verdict flag is monotone; the prefix test is one of two hand-verified idioms; every assigned name is a candidate of the conflict search (no positional narrowing in a str()-ordered list). No namespace adopts another namespace's container.",
+            "Every namespace mutation is preceded on all paths by an availability query over the same names with a raising failure edge; names are canonicalised first; str() never reaches the deciding comparison; verdict flag is monotone; the prefix test is one of two hand-verified idioms; every assigned name is a candidate of the conflict search (no positional narrowing in a str()-ordered list). No namespace adopts another namespace's container. Every method that adds names maintains all the state the search reads (index coherence); the iterated candidate collection holds the stored names unconditionally (a narrowed or fast-path search is undecided).",
             "soundness/completeness of the prefix loop beyond idiom recognition (N1)", "6/C18"),
     "C19": ("cross-invocation effect analysis, recursion / while-loop variant classification, set-iteration lint, who-may-call, raise-type discipline, path-typed join, optional-member guards, non-emptiness proofs for reducers / transpositions without an identity, member-direction agreement, pattern-width agreement across a clamp, uniqueness of computed submodule names",
-            "No state carried from one elaboration to the next, every recursion structural or bounded, no set iteration without sorted(), metadata mutators unreachable from elaborate(), explicit raises are ValueError/TypeError (frozen exception table), path-typed values are str-mapped before join, optional bus members are accessed under their feature test, reduce/max/min/next/zip(*x) without identity only on provably non-empty collections, driven plain members are Out and read-only ones In (D8), Case patterns of the Wishbone decoder are as wide as its address port for every accepted parameter (D9: known finding), submodule names computed from paths are guarded by a uniqueness test over all names of the module (D10, fixed), bus setters accept exactly the maps of the bus geometry. The shadow give-up threshold refuses no layout a further doubling would balance. Port members of every component are checked for direction without exemption (D14: csr.Register.element, known finding); divisions by parameters follow their validation; x[:-n] is guarded against n == 0; signals of shape-like shape are used as views only (D16, fixed); what a private helper asserts about a public parameter the constructor refuses (D17, fixed).",
+            "No state carried from one elaboration to the next, every recursion structural or bounded, no set iteration without sorted(), metadata mutators unreachable from elaborate(), explicit raises are ValueError/TypeError (frozen exception table), path-typed values are str-mapped before join, optional bus members are accessed under their feature test, reduce/max/min/next/zip(*x) without identity only on provably non-empty collections, driven plain members are Out and read-only ones In (D8), Case patterns of the Wishbone decoder are as wide as its address port for every accepted parameter (D9: known finding), submodule names computed from paths are guarded by a uniqueness test over all names of the module (D10, fixed), bus setters accept exactly the maps of the bus geometry. The shadow give-up threshold refuses no layout a further doubling would balance. Port members of every component are checked for direction without exemption (D14: csr.Register.element, known finding); divisions by parameters follow their validation; x[:-n] is guarded against n == 0; signals of shape-like shape are used as views only (D16, fixed); what a private helper asserts about a public parameter the constructor refuses, value for value (D17, fixed); memo tables are not keyed by the text of the object they describe; a submodule name is not transformed after its uniqueness test.",
             "absence of every internal exception inside Amaranth calls (N4)", "6/C19"),
     "C20": ("two-point port polarity type system; driver/polarity agreement (interface and plain members); signature parameter-set agreement; member presence as a Boolean function",
-            "Target ports type as In(initiator signature), every driver of a port member is an output under the port's polarity, connect() arguments have opposite polarity, signature parameters agree across __init__/__eq__/create()/interface constructor, optional members follow features. Every wiring.Signature subclass of the package has value equality (D12, fixed); an iterable parameter is traversed once (D13, fixed); features are stored converted on every path; like-named parameters reach Signature(...) as given; stored parameters are the parameters.",
+            "Target ports type as In(initiator signature), every driver of a port member is an output under the port's polarity, connect() arguments have opposite polarity, signature parameters agree across __init__/__eq__/create()/interface constructor, optional members follow features. Every wiring.Signature subclass of the package has value equality (D12, fixed); an iterable parameter is traversed once (D13, fixed); features are stored converted on every path; like-named parameters reach Signature(...) as given; stored parameters are the parameters; no memo keyed by repr()/str()/__name__ of a shape.",
             "behaviour of wiring.connect itself (N4)", "6/C20"),
 }
 
